@@ -395,7 +395,9 @@ func init() {
 		return repeat(n, func() string {
 			return safely(func() string {
 				var pl gabi.ProofList
-				if err := json.Unmarshal(raw, &pl); err != nil {
+				if o.boolean("direct") {
+					pl = treesToProofList(o["proofs"])
+				} else if err := json.Unmarshal(raw, &pl); err != nil {
 					return "decode-error"
 				}
 				return verdict(pl.Verify(pks, ctx, nonce, o.boolean("issig"), kss))
@@ -413,7 +415,9 @@ func init() {
 		return repeat(n, func() string {
 			return safely(func() string {
 				p := &gabi.ProofD{}
-				if err := json.Unmarshal(raw, p); err != nil {
+				if o.boolean("direct") {
+					p = treeToProofD(o["proof"])
+				} else if err := json.Unmarshal(raw, p); err != nil {
 					return "decode-error"
 				}
 				return verdict(p.Verify(pk, ctx, nonce, o.boolean("issig")))
@@ -424,10 +428,12 @@ func init() {
 		raw := treeToGabiJSON(o["proof"])
 		pk := execKey(o.str("key")).pk
 		p := &gabi.ProofU{}
-		if err := json.Unmarshal(raw, p); err != nil {
+		if o.boolean("direct") {
+			p = treeToProofU(o["proof"])
+		} else if err := json.Unmarshal(raw, p); err != nil {
 			return "decode-error"
 		}
-		return verdict(p.Verify(pk, unhx(o["context"]), unhx(o["nonce"])))
+		return safely(func() string { return verdict(p.Verify(pk, unhx(o["context"]), unhx(o["nonce"]))) })
 	}
 }
 
